@@ -226,7 +226,8 @@ claim('C14', level='other',
                   'and time.time() in System.simulate whose value reaches only print(); no default argument is a mutable object or '
                   'a call evaluated at import; (c) the per-run facts the split-run clause rests on are the machine-checked contracts of '
                   'Environment.run / schedule_event (everything due within the horizon is dispatched, later events stay queued, the '
-                  'clock ends exactly at t0+d).  NOT decided: split-run equivalence, independence from the asset-id offset, equality '
+                  'clock ends exactly at t0+d) and of System.add_asset / _initialize_assets (registration and initialisation in creation order, '
+                  'independent of names and ids).  NOT decided: split-run equivalence, independence from the asset-id offset, equality '
                   'of in-process and worker-process results (two-run relational properties / pickling).')
 
 claim('C20',
